@@ -17,6 +17,6 @@ ASSUMPTIONS = ["value equality after a serde round trip is serde's contract for 
 
 def run(F, rep):
     rep.engines.update(["E3", "E2-DT", "E1"])
-    dt_export.json_tables(F, rep, "C20.1")
-    dt_export.gfa_tables(F, rep, "C20.2")
-    dt_export.serde_rules(F, rep, "C20.4")
+    rep.run(dt_export.json_tables, F, rep, "C20.1")
+    rep.run(dt_export.gfa_tables, F, rep, "C20.2")
+    rep.run(dt_export.serde_rules, F, rep, "C20.4")
